@@ -133,6 +133,20 @@ func (e *ExecCmdPosInt) Execute(args []string) error {
 	return e.st.Err
 }
 
+// ExecCmdPosIntOpt is ExecCmdPosInt without the required mark: its positionals are optional.
+type ExecCmdPosIntOpt struct {
+	st   *ExecState
+	Args struct {
+		First int
+		Rest  []string
+	} `positional-args:"yes"`
+}
+
+func (e *ExecCmdPosIntOpt) Execute(args []string) error {
+	*e.st.log = append(*e.st.log, ExecCall{Via: "execute", Cmd: e.st.ID, Args: append([]string{}, args...)})
+	return e.st.Err
+}
+
 // Type describes the Go type of an option or positional field.
 type Type struct {
 	Name string
